@@ -115,6 +115,57 @@ pub fn run(rep: &mut Rep) {
             }
         }
     }
+    // requests queued behind whatever ended run() (the user's DISCONNECT from another clone, a server DISCONNECT, EOF):
+    // they were never looked at; when the context is dropped they fail with ContextExited like everything else
+    rep.note("queued behind the end of run(): with the context held, a terminating cause (user DISCONNECT / server DISCONNECT reason 0 / reason 0x8b / EOF) is followed by one operation of every kind from two clones; run() ends, the context is dropped: every one of them reports ContextExited, none hangs");
+    let mut qidx = 47_000_000u64;
+    for cause in 0..4u8 {
+        for order in 0..2u8 {
+            let id = format!("queued-behind:{cause}:{order}");
+            qidx += 1;
+            if !rep.take(qidx, &id) {
+                continue;
+            }
+            let mut w = World::boot(WorldCfg { seed: rep.seed, order, ..Default::default() });
+            w.sim.hold_ctx = true;
+            match cause {
+                0 => apply(&mut w, Act::Term(TermAct::UserDisconnect)),
+                1 => w.server_disconnect(0, 0, false),
+                2 => w.server_disconnect(0x8b, 1, false),
+                _ => w.eof(),
+            }
+            let kinds = [Kind::Pub1, Kind::Sub, Kind::Pub0, Kind::Unsub, Kind::Pub2, Kind::Ping, Kind::Sub];
+            let mut ops = Vec::new();
+            for (j, k) in kinds.iter().enumerate() {
+                let i = w.start(j % 2, *k);
+                w.m[i].after_term = true;
+                ops.push(i);
+            }
+            w.sim.hold_ctx = false;
+            w.settle_check();
+            w.drop_ctx();
+            w.settle_check();
+            for &i in &ops {
+                let k = w.m[i].kind.name();
+                match &w.sim.ops[i].out {
+                    None => w.viol(&["C14"], format!("C14/op-hangs-after-context-drop/{k}"), format!("op{i} ({k}), queued behind the end of run(), is still pending after drop(context)")),
+                    Some(o) if !matches!(o.err(), Some(crate::spec::ErrSum::ContextExited)) && !o.is_ok() => {
+                        let o = o.brief();
+                        w.viol(&["C14"], format!("C14/wrong-result-after-context-drop/{k}"), format!("op{i} ({k}), queued behind the end of run(): expected ContextExited, got {o}"));
+                    }
+                    _ => {}
+                }
+            }
+            finish(&mut w);
+            rep.add("evaluations", 1);
+            rep.add("queued_behind_the_end_cases", 1);
+            rep.distinct(&("queued-behind", cause, order));
+            if super::harvest(rep, &mut w, &id) == 0 {
+                rep.sample(|| format!("{id}: {:?}", ops.iter().map(|&i| w.sim.ops[i].out.as_ref().map(|o| o.brief())).collect::<Vec<_>>()));
+            }
+            super::add_counters(rep, &w);
+        }
+    }
     // many operations and streams pending at the drop
     let ns: Vec<usize> = if rep.quick() { vec![9, 17, 33, 65, 129, 300] } else { vec![7, 8, 9, 15, 16, 17, 31, 32, 33, 63, 64, 65, 127, 128, 129, 255, 256, 257, 1000] };
     rep.note(&format!("wide: {:?} operations of every kind pending in every phase (unpolled, queued behind a stalled writer, awaiting their acknowledgement, between the QoS 2 phases, acknowledged but unpolled) and a sixth as many streams with 0 / 3 / 40 / 63 / 64 / 65 / 130 / 300 buffered messages when the context is dropped", ns));
